@@ -27,21 +27,22 @@ end
 @[simp] theorem allSubTy_cons (a : Ty) (as : List Ty) (c : Cls) :
     allSubTy (a :: as) c = (isSubTy a c && allSubTy as c) := by simp [allSubTy]
 
+/-- the classes scalars have -/
+def isAtomCls (c : Cls) : Bool :=
+  [Cls.NoneType, .bool, .int, .float, .str, .bytes, .PosixPath, .FieldInteger, .FieldDecimal, .FieldText, .FieldBoolean].contains c
+
+theorem atomOK_cls {c : Cls} {p : Payload} (h : atomOK c p = true) : isAtomCls c = true := by
+  cases p <;> cases c <;> simp [atomOK, isAtomCls] at h ⊢
+
 theorem std_cls {v : V} (h : v.std = true) : isStdValueCls v.cls = true := by
   cases v with
   | atom c p =>
     simp only [V.std] at h
     simp only [cls_atom]
-    unfold atomOK at h
-    cases p <;> simp only [] at h
-    · have : c = .NoneType := by simpa using h
-      subst this; decide
-    · simp only [Bool.or_eq_true, Bool.and_eq_true, beq_iff_eq] at h
-      rcases h with (h | h) | ⟨h, _⟩ <;> subst h <;> decide
-    · simp only [Bool.or_eq_true, beq_iff_eq] at h
-      rcases h with h | h <;> subst h <;> decide
-    · simp only [Bool.and_eq_true, beq_iff_eq] at h
-      have := h.1; subst this; decide
+    have h0 : (!(isAtomCls c) || isStdValueCls c) = true :=
+      forall_cls (P := fun c => !(isAtomCls c) || isStdValueCls c) (by decide) c
+    rw [atomOK_cls h] at h0
+    simpa using h0
   | seq c l =>
     simp only [V.std, Bool.and_eq_true] at h
     simp only [cls_seq]
